@@ -228,6 +228,7 @@ fn gen_req() -> GenReq {
     } else {
         None
     };
+    let variables = if chance(1, 12) { Some(J::Null) } else { variables };
     let extensions = if chance(1, 2) {
         let mut m = serde_json::Map::new();
         for i in 0..draw(3) {
@@ -282,7 +283,11 @@ fn req_query_string(r: &GenReq) -> String {
     if chance(1, 2) {
         parts.reverse();
     }
-    parts.join("&")
+    let mut qs = parts.join("&");
+    if chance(1, 6) {
+        qs.push('&');
+    }
+    qs
 }
 
 pub const BOUNDARY: &str = "SIMb0undary";
@@ -508,7 +513,8 @@ fn batch_schema() -> &'static Schema<BatchQuery, EmptyMutation, EmptySubscriptio
 
 fn c23_batch(out: &mut CaseOut) {
     world::reset_world();
-    let n = 2 + draw(5) as usize;
+    let n = if chance(1, 8) { 12 + draw(9) as usize } else { 2 + draw(5) as usize };
+    let dynamic = chance(1, 3);
     let items: Vec<J> = (0..n)
         .map(|i| {
             if chance(1, 6) {
@@ -526,7 +532,7 @@ fn c23_batch(out: &mut CaseOut) {
     let res = decode("batch", async move {
         let batch = receive_batch_json(reader).await.map_err(|e| format!("{e:?}"))?;
         let decoded = batch_fields(&batch);
-        let resp = batch_schema().execute_batch(batch).await;
+        let resp = if dynamic { async_graphql::Executor::execute_batch(world::dynamic_schema(0), batch).await } else { batch_schema().execute_batch(batch).await };
         Ok::<_, String>((decoded, resp))
     });
     let Some(res) = res else {
@@ -570,7 +576,7 @@ fn c23_batch(out: &mut CaseOut) {
 fn c23_malformed(out: &mut CaseOut) {
     let r = gen_req();
     let good = serde_json::to_vec(&req_json(&r)).unwrap();
-    let kind = draw(8);
+    let kind = draw(11);
     let (label, result): (String, Option<DecodeRes>) = match kind {
         0 => {
             // JSON cut in the middle of the document
@@ -598,6 +604,19 @@ fn c23_malformed(out: &mut CaseOut) {
         5 => {
             let qs = format!("query={}&extensions=%5B1%2C", urlencode(&r.query));
             (format!("GET with cut extensions JSON: {qs}"), Some(parse_query_string(&qs).map(|r| req_fields(&r)).map_err(|e| format!("{e:?}"))))
+        }
+        8 => {
+            let mut body = good.clone();
+            body.extend_from_slice(b" xyz");
+            ("json body followed by trailing garbage".to_string(), decode_body("malformed", None, body, draw_plan(false, 10), false).0)
+        }
+        9 => {
+            let body = serde_json::to_vec(&json!([req_json(&r), null])).unwrap();
+            ("batch containing null".to_string(), decode_body("malformed", None, body, draw_plan(false, 10), true).0)
+        }
+        10 => {
+            let body = serde_json::to_vec(&json!({"query": "{ id }", "operationName": 5})).unwrap();
+            ("operationName is a number".to_string(), decode_body("malformed", None, body, draw_plan(false, 10), false).0)
         }
         6 => {
             // multipart without the operations part
@@ -981,16 +1000,19 @@ fn run_c12(variant: usize) -> CaseOut {
                     _ => (Some(gen_text()), serde_json::to_vec(&req_json(&r)).unwrap()),
                 }
             } else {
-                let ops = json!({"query": UP_QUERY, "variables": {"a": null, "b": [null], "o": {"f": null}}});
+                let one = json!({"query": UP_QUERY, "variables": {"a": null, "b": [null], "o": {"f": null}}});
+                let ops = if chance(1, 3) { json!([one.clone(), one.clone()]) } else { one };
                 let mut parts = vec![
                     Part { name: "operations".into(), filename: None, content_type: None, data: serde_json::to_vec(&ops).unwrap() },
-                    Part { name: "map".into(), filename: None, content_type: None, data: match draw(4) {
+                    Part { name: "map".into(), filename: None, content_type: None, data: match draw(6) {
                         0 => b"{\"0\": [\"variables.a\"]}".to_vec(),
                         1 => b"{\"0\": \"variables.a\"}".to_vec(),
                         2 => b"{\"0\": [\"variables.b.7\", \"variables.o.f.x\", \"nothing\", \"5.variables.a\"]}".to_vec(),
+                        4 => b"{\"0\": [\"variables..a\", \"variables.b.\", \"variables.b.99999999999999999999\", \"variables.b.-1\", \"variables.a.x\", \".variables.a\", \"variables\", \"\", \"variables.\"]}".to_vec(),
+                        5 => b"{\"0\": [\"0.variables.a\", \".variables.a\", \"abc.variables.a\", \"0.\", \"0\", \"1.variables.b.0\", \"99999999999999999999.variables.a\", \"-1.variables.a\"], \"\": [\"variables.a\"]}".to_vec(),
                         _ => b"[1,2]".to_vec(),
                     } },
-                    Part { name: "0".into(), filename: if chance(3, 4) { Some("a.txt".into()) } else { None }, content_type: if chance(1, 2) { Some("text/plain".into()) } else { Some("not a mime".into()) }, data: vec![b'x'; draw(100) as usize] },
+                    Part { name: if chance(1, 8) { String::new() } else { "0".into() }, filename: match draw(6) { 0 => None, 1 => Some(String::new()), _ => Some("a.txt".into()) }, content_type: if chance(1, 2) { Some("text/plain".into()) } else { Some("not a mime".into()) }, data: vec![b'x'; draw(100) as usize] },
                 ];
                 if chance(1, 3) {
                     parts.swap(0, 2);
@@ -1026,7 +1048,7 @@ fn run_c12(variant: usize) -> CaseOut {
         2 => c12_ws(&mut out),
         _ => {
             // forged upload markers, with and without real uploads
-            let markers = ["#__graphql_file__:x", "#__graphql_file__:0", "#__graphql_file__:99", "#__graphql_file__:", "#__graphql_file__:-1", "#__graphql_file__:18446744073709551616", "#__graphql_file__", "plain"];
+            let markers = ["#__graphql_file__:\u{e9}", "#__graphql_file__:1\u{e9}", "#__graphql_file__: 0", "#__graphql_file__:+0", "#__graphql_file__:x", "#__graphql_file__:0", "#__graphql_file__:99", "#__graphql_file__:", "#__graphql_file__:-1", "#__graphql_file__:18446744073709551616", "#__graphql_file__", "plain"];
             let m = |_: u32| json!(markers[draw(markers.len() as u32) as usize]);
             let vars = json!({"a": m(0), "b": [m(1), null], "o": {"f": m(2), "n": 1}});
             let with_upload = chance(1, 2);
